@@ -35,7 +35,8 @@ ASSUMPTIONS = ['the real file system of the sandbox holds the simulated director
 BUDGET = {'quick': {'runs': 1200, 'cap_s': 60, 'wall_s': 110, 'chunk': 25},
           'thorough': {'runs': 60000, 'cap_s': 120, 'wall_s': 1500, 'chunk': 100}}
 
-TARGETS = [('path', 4), ('existing', 4), ('handle', 2), ('dirty_handle', 2), ('bytesio', 1), ('pathobj', 1.5), ('existing_pathobj', 1.5)]
+TARGETS = [('path', 4), ('existing', 4), ('handle', 2), ('dirty_handle', 2), ('bytesio', 1), ('pathobj', 1.5), ('existing_pathobj', 1.5),
+           ('append_handle', 1.5)]
 
 
 def gen_plan(rng, tier, index):
@@ -517,8 +518,47 @@ def _do_save(ctx, pool, fs, files, objs, kind, o):
         else:
             entry = c[o['p'] % len(c)]
             dest = entry['path']
+    if target == 'append_handle':
+        # a second object pickled to the same open handle, right behind the first (pickle streams may hold several objects)
+        c = [e for e in files.of('pkl', with_handle=True) if e['twin'] is not None and not e.get('appended')]
+        if ft != 'pkl' or not c or o['fault']:
+            target = 'handle'
+        else:
+            e0 = c[o['p'] % len(c)]
+            h = e0['handle']
+            try:
+                h.seek(0, 2)
+                fs.tick('save', target='<append_handle>', ft='pkl', overwrite=False, fault=None, obj=slot.sid)
+                twin2 = rec_any(obj)
+                obj.save(h, file_type='pkl', overwrite=False)
+                h.flush() if hasattr(h, 'flush') else None
+            except Exception as ex:
+                ctx.violation('fs_model.save_raises', f'save:{kind}:pkl:append_handle:raises:{type(ex).__name__}',
+                              f'second save to the same open pickle handle raised {type(ex).__name__}: {str(ex)[:200]}')
+                return
+            e0['appended'] = twin2
+            # read both objects back in sequence from the start of the stream
+            load = _loader(kind)
+            try:
+                h.seek(0)
+                first = load(h, file_type='pkl')
+                second = load(h, file_type='pkl')
+            except Exception as ex:
+                ctx.violation('fs_model.load_raises', f'load:{kind}:pkl:sequential-handle:raises:{type(ex).__name__}',
+                              f'reading two objects in sequence from one pickle handle raised {type(ex).__name__}: {str(ex)[:200]}')
+                return
+            for nm, got, tw in (('first', first, e0['twin']), ('second', second, twin2)):
+                dd = diff_rec(tw, rec_any(got))
+                if dd:
+                    ctx.violation('fs_model.roundtrip', f'load:{kind}:pkl:sequential-handle:{nm}',
+                                  f'two objects pickled one after the other to the same handle: the {nm} object read back differs: {dd[0][1]}')
+                    return
+            e0['twin'] = None          # the handle now holds a two-object stream; not reused by the single-object routes
+            ctx.probe('sequential_handle_loads')
+            ctx.behaviour('save', kind, 'append_handle')
+            return
     if target == 'dirty_handle':
-        c = [e for e in files.of(ft, with_handle=True) if e['path']]
+        c = [e for e in files.of(ft, with_handle=True) if e['path'] and e['twin'] is not None]
         if not c:
             target = 'handle'
         else:
